@@ -78,7 +78,7 @@ type handlerSpec struct {
 	// after the response has been written and before the handler returns, another RPC with a 1500-byte
 	// response runs to completion on the same Transcoder, on the handler's goroutine
 	NestBig bool `json:"nestbig"`
-	Ignore  bool        `json:"ignore"`  // ignore request-side failures (hostile handler)
+	Ignore  bool `json:"ignore"` // ignore request-side failures (hostile handler)
 }
 
 type scenario struct {
